@@ -65,6 +65,14 @@ type drv struct {
 	seq      uint32
 	lost     bool // a sentinel went unanswered: finish the history in flight quickly, then stop driving
 	dbuf     []byte
+	// keys of the provider: one that has expired and is gone, one that is no longer the
+	// current one but still valid, and the current one
+	keyExpired, keyOlder ntske.Key
+	// traps: sockets that never send anything, bound where a stray copy of a reply would
+	// plausibly go (the NTP port and the listener ports on the senders' addresses); their
+	// index in observations continues after the sending sockets.  Anything that arrives
+	// there is charged to the exchange in flight.
+	traps []*net.UDPConn
 }
 
 func ownAddr(second byte) net.IP {
@@ -76,6 +84,15 @@ func newDrv() *drv {
 	d := &drv{dbuf: make([]byte, 65536)}
 	timebase.RegisterClock(sysClock{})
 	d.provider = ntske.NewProvider()
+	// let the provider live through three days (hook VerifAge moves its keys into the past):
+	// the first key expires and is dropped, the second stays valid next to the current one
+	d.keyExpired = d.provider.Current()
+	d.provider.VerifAge(25 * time.Hour)
+	d.keyOlder = d.provider.Current()
+	d.provider.VerifAge(50 * time.Hour)
+	if cur := d.provider.Current(); cur.ID == d.keyOlder.ID || d.keyOlder.ID == d.keyExpired.ID {
+		panic("key provider did not rotate")
+	}
 	d.srvIP = ownAddr(9)
 	log := slog.New(slog.DiscardHandler)
 	ctx := context.Background()
@@ -95,7 +112,22 @@ func newDrv() *drv {
 		c.SetReadBuffer(1 << 20)
 		d.socks = append(d.socks, c)
 	}
+	for _, a := range []*net.UDPAddr{
+		{IP: d.srvIP, Port: 123}, {IP: ownAddr(209), Port: 123},
+		{IP: ownAddr(209), Port: ipPort}, {IP: ownAddr(209), Port: scionPort}, {IP: ownAddr(209), Port: endhostPort},
+	} {
+		c, err := net.ListenUDP("udp4", a)
+		if err != nil {
+			panic(err)
+		}
+		d.traps = append(d.traps, c)
+	}
 	return d
+}
+
+// everywhere lists every socket a datagram of the listeners could be seen on.
+func (d *drv) everywhere() []*net.UDPConn {
+	return append(append([]*net.UDPConn(nil), d.socks...), d.traps...)
 }
 
 // drain returns what is queued on a socket right now without waiting.
@@ -172,7 +204,7 @@ func (d *drv) exchange(sender int, dst *net.UDPAddr, pkt, sentinelPkt []byte,
 		}
 		reps = append(reps, obs{sender, b})
 	}
-	for i, s := range d.socks {
+	for i, s := range d.everywhere() {
 		for _, b := range d.drain(s) {
 			if isSentinel(b) {
 				sreps = append(sreps, obs{i, b})
@@ -225,6 +257,12 @@ func (d *drv) ntsValid(b []byte) (ok bool) {
 // b0 and then damages it according to the variant.
 func (d *drv) ntsRequest(b0 byte, variant int64, r *lib.Rng) []byte {
 	key := d.provider.Current()
+	switch variant {
+	case 12: // cookie sealed under a key that is not the current one any more, but still valid
+		key = d.keyOlder
+	case 13: // cookie sealed under a key that has expired
+		key = d.keyExpired
+	}
 	// fresh session keys for every request, as every client has its own
 	c2s, s2c := make([]byte, 32), make([]byte, 32)
 	rand.Read(c2s)
@@ -278,6 +316,43 @@ func (d *drv) ntsRequest(b0 byte, variant int64, r *lib.Rng) []byte {
 	return buf
 }
 
+// NTS label of a request by construction, independent of what the NTS code of /repo says
+// about it: the harness knows how it built the datagram.
+const (
+	ntsNo     = 0 // not a valid NTS request: no cookie of this server, or damaged in a protected place
+	ntsYes    = 1 // intact: real cookie under a valid key, authenticated with its C2S key, untouched
+	ntsEither = 2 // the property text does not decide (bytes after the authenticator)
+)
+
+func ntsLabelOf(variant int64) int {
+	switch variant {
+	case 0, 8, 12:
+		return ntsYes
+	case 6:
+		return ntsEither
+	}
+	return ntsNo
+}
+
+// ntsField is what an observation says about a payload: 2*label + (verdict recomputed
+// with the six calls the listeners make).  The oracle uses the label; the recomputed
+// verdict is the model's input and must agree with the label.
+func (d *drv) ntsField(label int, payload []byte) string {
+	f := int64(2 * label)
+	if d.ntsValid(payload) {
+		f++
+	}
+	return lib.I(f)
+}
+
+// labelOf is the by-construction label of a scripted step's payload.
+func labelOf(s step) int {
+	if s.k == kNTS {
+		return ntsLabelOf(s.a)
+	}
+	return ntsNo // literal, reflected and follow-up payloads never carry a cookie of this server
+}
+
 // ---- IP ----
 
 func obsList(os []obs) string {
@@ -320,8 +395,7 @@ func (d *drv) payloadOf(s step, firstReply [][]byte, r *lib.Rng) []byte {
 }
 
 // burstItems decodes the items of a burst step.
-func (d *drv) burstItems(data []byte, r *lib.Rng) [][]byte {
-	var items [][]byte
+func (d *drv) burstItems(data []byte, r *lib.Rng) (items [][]byte, labels []int) {
 	for len(data) >= 2 {
 		n := int(binary.BigEndian.Uint16(data))
 		data = data[2:]
@@ -330,6 +404,7 @@ func (d *drv) burstItems(data []byte, r *lib.Rng) [][]byte {
 				break
 			}
 			items = append(items, d.ntsRequest(data[1], int64(data[0]), r))
+			labels = append(labels, ntsLabelOf(int64(data[0])))
 			data = data[2:]
 			continue
 		}
@@ -337,9 +412,10 @@ func (d *drv) burstItems(data []byte, r *lib.Rng) [][]byte {
 			n = len(data)
 		}
 		items = append(items, data[:n])
+		labels = append(labels, ntsNo)
 		data = data[n:]
 	}
-	return items
+	return items, labels
 }
 
 // exchangeBurst is exchange with several datagrams before the sentinel.
@@ -417,7 +493,7 @@ func (d *drv) runParallel(data []byte, dst *net.UDPAddr) []string {
 	}
 	// anything left anywhere: late, duplicated or misdirected datagrams; charge them to the
 	// socket they arrived at when it took part, else to the first one
-	for i, s := range d.socks {
+	for i, s := range d.everywhere() {
 		for _, b := range d.drain(s) {
 			g := order[0]
 			if _, ok := groups[i]; ok {
@@ -430,7 +506,7 @@ func (d *drv) runParallel(data []byte, dst *net.UDPAddr) []string {
 	for _, snd := range order {
 		var ps []string
 		for _, p := range groups[snd] {
-			ps = append(ps, lib.L(lib.B(p), lib.Bool(d.ntsValid(p))))
+			ps = append(ps, lib.L(lib.B(p), d.ntsField(ntsNo, p)))
 		}
 		outs = append(outs, lib.L(lib.I(int64(snd)), lib.L(ps...), obsList(reps[snd]), lib.B(sentinels[snd]), obsList(sreps[snd])))
 	}
@@ -466,13 +542,13 @@ func (d *drv) runIP(tags string, steps []step, r *lib.Rng) {
 			continue
 		}
 		if s.k == kBurst {
-			items := d.burstItems(s.data, r)
+			items, labels := d.burstItems(s.data, r)
 			if len(items) == 0 {
 				continue
 			}
 			var ps []string
-			for _, p := range items {
-				ps = append(ps, lib.L(lib.B(p), lib.Bool(d.ntsValid(p))))
+			for j, p := range items {
+				ps = append(ps, lib.L(lib.B(p), d.ntsField(labels[j], p)))
 			}
 			sentinel := d.nextSentinel()
 			reps, sreps := d.exchangeBurst(s.sender, dst, items, sentinel)
@@ -486,13 +562,13 @@ func (d *drv) runIP(tags string, steps []step, r *lib.Rng) {
 			continue
 		}
 		payload := d.payloadOf(s, firstReply, r)
-		ntsok := d.ntsValid(payload)
+		ntsok := d.ntsField(labelOf(s), payload)
 		sentinel := d.nextSentinel()
 		reps, sreps := d.exchange(s.sender, dst, payload, sentinel, d.isSentinelReply)
 		if len(reps) > 0 {
 			firstReply[i] = reps[0].data
 		}
-		outs = append(outs, lib.L(lib.I(int64(s.sender)), lib.B(payload), lib.Bool(ntsok), obsList(reps), lib.B(sentinel), obsList(sreps)))
+		outs = append(outs, lib.L(lib.I(int64(s.sender)), lib.B(payload), ntsok, obsList(reps), lib.B(sentinel), obsList(sreps)))
 	}
 	emitCase("ip", tags, args, lib.V("0", lib.L(outs...)))
 }
@@ -542,7 +618,36 @@ func (h *hdrSpec) modelString() string {
 		lib.U(uint64(h.udpSrc)), lib.U(uint64(h.udpDst)))
 }
 
-func buildSCION(h *hdrSpec, payload []byte) ([]byte, error) {
+// extension headers of a request (hdrSpec.ext):
+//
+//	0 none
+//	1 E2E with the timestamp option (253) the dispatcher adds when it relays a packet
+//	2 E2E with an option of unknown type
+//	3 HBH (unknown option) + E2E (timestamp option and an unknown one)
+//	4 HBH only
+//	5 E2E with padding options only
+func extLayers(ext uint8) (hbh *slayers.HopByHopExtn, e2e *slayers.EndToEndExtn) {
+	ts := &slayers.EndToEndOption{OptType: 253, OptData: []byte{0x11, 0x22, 0x33, 0x44, 0x55, 0x66, 0x77, 0x88, 9, 10, 11, 12, 13, 14, 15, 16}}
+	unk := &slayers.EndToEndOption{OptType: 200, OptData: []byte{0xde, 0xad, 0xbe, 0xef, 0x01}}
+	switch ext {
+	case 1:
+		e2e = &slayers.EndToEndExtn{Options: []*slayers.EndToEndOption{ts}}
+	case 2:
+		e2e = &slayers.EndToEndExtn{Options: []*slayers.EndToEndOption{unk}}
+	case 3:
+		hbh = &slayers.HopByHopExtn{Options: []*slayers.HopByHopOption{{OptType: 201, OptData: []byte{1, 2, 3, 4, 5, 6}}}}
+		e2e = &slayers.EndToEndExtn{Options: []*slayers.EndToEndOption{ts, unk}}
+	case 4:
+		hbh = &slayers.HopByHopExtn{Options: []*slayers.HopByHopOption{{OptType: 201, OptData: []byte{9, 8, 7}}}}
+	case 5:
+		e2e = &slayers.EndToEndExtn{Options: []*slayers.EndToEndOption{{OptType: slayers.OptTypePad1}, {OptType: slayers.OptTypePadN, OptData: []byte{0, 0, 0}}}}
+	}
+	return hbh, e2e
+}
+
+// serializeSCION puts the SCION header (with the extension headers h.ext asks for) in
+// front of an L4 part: UDP + payload, or SCMP.
+func serializeSCION(h *hdrSpec, l4proto slayers.L4ProtocolType, l4 func(scn *slayers.SCION) []gopacket.SerializableLayer) ([]byte, error) {
 	p, err := buildPath(h.pathType, h.pathRaw)
 	if err != nil {
 		return nil, err
@@ -550,55 +655,143 @@ func buildSCION(h *hdrSpec, payload []byte) ([]byte, error) {
 	var scn slayers.SCION
 	scn.Version = 0
 	scn.FlowID = 1
-	scn.NextHdr = slayers.L4UDP
+	scn.NextHdr = l4proto
 	scn.PathType = path.Type(h.pathType)
 	scn.Path = p
 	scn.DstIA, scn.SrcIA = addrIA(h.dstIA), addrIA(h.srcIA)
 	scn.DstAddrType, scn.SrcAddrType = slayers.AddrType(h.dstType), slayers.AddrType(h.srcType)
 	scn.RawDstAddr, scn.RawSrcAddr = h.dstRaw, h.srcRaw
-	var udp slayers.UDP
-	udp.SrcPort, udp.DstPort = h.udpSrc, h.udpDst
-	udp.SetNetworkLayerForChecksum(&scn)
+	layers := []gopacket.SerializableLayer{&scn}
+	hbh, e2e := extLayers(h.ext)
+	if e2e != nil {
+		e2e.NextHdr = l4proto
+		scn.NextHdr = slayers.End2EndClass
+	}
+	if hbh != nil {
+		hbh.NextHdr = scn.NextHdr
+		scn.NextHdr = slayers.HopByHopClass
+		layers = append(layers, hbh)
+	}
+	if e2e != nil {
+		layers = append(layers, e2e)
+	}
+	layers = append(layers, l4(&scn)...)
 	sb := gopacket.NewSerializeBuffer()
-	err = gopacket.SerializeLayers(sb, gopacket.SerializeOptions{ComputeChecksums: true, FixLengths: true},
-		&scn, &udp, gopacket.Payload(payload))
+	err = gopacket.SerializeLayers(sb, gopacket.SerializeOptions{ComputeChecksums: true, FixLengths: true}, layers...)
 	if err != nil {
 		return nil, err
 	}
 	return append([]byte(nil), sb.Bytes()...), nil
 }
 
-// parseSCION decodes a datagram received from the listener: SCION header, UDP, NTP payload.
-func parseSCION(b []byte) (ok bool, h hdrSpec, payload []byte) {
+func buildSCION(h *hdrSpec, payload []byte) ([]byte, error) {
+	return serializeSCION(h, slayers.L4UDP, func(scn *slayers.SCION) []gopacket.SerializableLayer {
+		var udp slayers.UDP
+		udp.SrcPort, udp.DstPort = h.udpSrc, h.udpDst
+		udp.SetNetworkLayerForChecksum(scn)
+		return []gopacket.SerializableLayer{&udp, gopacket.Payload(payload)}
+	})
+}
+
+// buildSCMP: an SCMP message of the given type with an echo-style body.
+func buildSCMP(h *hdrSpec, typ uint8, body []byte) ([]byte, error) {
+	return serializeSCION(h, slayers.L4SCMP, func(scn *slayers.SCION) []gopacket.SerializableLayer {
+		scmp := &slayers.SCMP{TypeCode: slayers.CreateSCMPTypeCode(slayers.SCMPType(typ), 0)}
+		scmp.SetNetworkLayerForChecksum(scn)
+		return []gopacket.SerializableLayer{scmp, gopacket.Payload(body)}
+	})
+}
+
+// classes of a datagram received from a SCION listener
+const (
+	clsNone = 0 // not a SCION packet, or the next-header chain does not lead to UDP or SCMP
+	clsUDP  = 1 // SCION [HBH] [E2E] UDP with consistent length and valid checksum: carries an NTP payload
+	clsSCMP = 2 // SCION [HBH] [E2E] SCMP
+	clsBad  = 3 // SCION ... UDP whose length or checksum is wrong
+)
+
+// udpChecksumOK verifies the checksum of a SCION/UDP datagram over the pseudo header
+// (source and destination ISD-AS and host address, upper-layer length, protocol) and the
+// UDP header and payload, written out here independently of the serialisation code.
+func udpChecksumOK(scn *slayers.SCION, l4 []byte) bool {
+	var sum uint32
+	add := func(b []byte) {
+		for i := 0; i+1 < len(b); i += 2 {
+			sum += uint32(b[i])<<8 | uint32(b[i+1])
+		}
+		if len(b)%2 == 1 {
+			sum += uint32(b[len(b)-1]) << 8
+		}
+	}
+	var ia [16]byte
+	binary.BigEndian.PutUint64(ia[:8], uint64(scn.DstIA))
+	binary.BigEndian.PutUint64(ia[8:], uint64(scn.SrcIA))
+	add(ia[:])
+	add(scn.RawDstAddr)
+	add(scn.RawSrcAddr)
+	sum += uint32(len(l4))>>16 + uint32(len(l4))&0xffff
+	sum += uint32(slayers.L4UDP)
+	add(l4)
+	for sum>>16 != 0 {
+		sum = sum>>16 + sum&0xffff
+	}
+	return sum == 0xffff
+}
+
+// parseSCION decodes a datagram received from the listener completely: SCION header, the
+// chain of next-header fields through the extension headers, UDP (length and checksum
+// verified) and the NTP payload.
+func parseSCION(b []byte) (cls int, h hdrSpec, payload []byte) {
 	defer func() {
 		if recover() != nil {
-			ok = false
+			cls = clsNone
 		}
 	}()
 	var scn slayers.SCION
 	if err := scn.DecodeFromBytes(b, gopacket.NilDecodeFeedback); err != nil {
-		return false, hdrSpec{}, nil
+		return clsNone, hdrSpec{}, nil
 	}
 	h.dstIA, h.srcIA = uint64(scn.DstIA), uint64(scn.SrcIA)
 	h.dstType, h.srcType = uint8(scn.DstAddrType), uint8(scn.SrcAddrType)
 	h.dstRaw, h.srcRaw = scn.RawDstAddr, scn.RawSrcAddr
 	h.pathType, h.pathRaw = pathBytes(scn.Path)
-	if scn.NextHdr != slayers.L4UDP {
-		return false, h, nil
+	next, rest := scn.NextHdr, scn.Payload
+	if next == slayers.HopByHopClass {
+		var hbh slayers.HopByHopExtn
+		if err := hbh.DecodeFromBytes(rest, gopacket.NilDecodeFeedback); err != nil {
+			return clsNone, h, nil
+		}
+		next, rest = hbh.NextHdr, hbh.Payload
 	}
-	var udp slayers.UDP
-	if err := udp.DecodeFromBytes(scn.Payload, gopacket.NilDecodeFeedback); err != nil {
-		return false, h, nil
+	if next == slayers.End2EndClass {
+		var e2e slayers.EndToEndExtn
+		if err := e2e.DecodeFromBytes(rest, gopacket.NilDecodeFeedback); err != nil {
+			return clsNone, h, nil
+		}
+		next, rest = e2e.NextHdr, e2e.Payload
 	}
-	h.udpSrc, h.udpDst = udp.SrcPort, udp.DstPort
-	return true, h, udp.Payload
+	switch next {
+	case slayers.L4SCMP:
+		return clsSCMP, h, rest
+	case slayers.L4UDP:
+		var udp slayers.UDP
+		if err := udp.DecodeFromBytes(rest, gopacket.NilDecodeFeedback); err != nil {
+			return clsNone, h, nil
+		}
+		h.udpSrc, h.udpDst = udp.SrcPort, udp.DstPort
+		if int(udp.Length) != len(rest) || !udpChecksumOK(&scn, rest) {
+			return clsBad, h, udp.Payload
+		}
+		return clsUDP, h, udp.Payload
+	}
+	return clsNone, h, nil
 }
 
 func scionObsList(os []obs) string {
 	items := make([]string, len(os))
 	for i, o := range os {
-		ok, h, pl := parseSCION(o.data)
-		items[i] = lib.L(lib.I(int64(o.rcv)), lib.Bool(ok), h.modelString(), lib.B(pl))
+		cls, h, pl := parseSCION(o.data)
+		items[i] = lib.L(lib.I(int64(o.rcv)), lib.I(int64(cls)), h.modelString(), lib.B(pl))
 	}
 	return lib.L(items...)
 }
@@ -634,33 +827,48 @@ func (d *drv) runSCION(tags string, steps []step, r *lib.Rng) {
 		if d.lost && !d.afterLoss(&after, s) {
 			break
 		}
-		payload := d.payloadOf(s, firstReply, r)
-		ntsok := d.ntsValid(payload)
 		sentinel := d.nextSentinel()
 		sh := d.sentinelHdr()
 		sh.underlay = s.hdr.underlay
-		pkt, err := buildSCION(s.hdr, payload)
-		if err != nil {
-			note("cannot build SCION packet: " + err.Error())
-			continue
-		}
 		spkt, err := buildSCION(sh, sentinel)
 		if err != nil {
 			panic(err)
 		}
 		dst := &net.UDPAddr{IP: d.srvIP, Port: int(s.hdr.underlay)}
 		isSent := func(b []byte) bool {
-			ok, _, pl := parseSCION(b)
-			return ok && d.isSentinelReply(pl)
+			cls, _, pl := parseSCION(b)
+			return cls == clsUDP && d.isSentinelReply(pl)
+		}
+		if s.k == kRaw {
+			// a datagram that is no SCION/UDP packet at all (garbage, SCMP), then the sentinel from
+			// the same socket: the goroutine that got the datagram must still be serving
+			reps, sreps := d.exchange(s.sender, dst, s.data, spkt, isSent)
+			outs = append(outs, lib.L(lib.B(s.data), lib.I(s.a), lib.U(uint64(s.hdr.underlay)), lib.U(scionPort), lib.I(int64(s.sender)),
+				scionObsList(reps), sh.modelString(), lib.B(sentinel), reversed(sh.pathType, sh.pathRaw), scionObsList(sreps)))
+			continue
+		}
+		hdr := *s.hdr
+		if hdr.fwd > 0 {
+			// a packet for another application on this host: L4 destination port and host address of
+			// one of the harness's own sockets, so that what the listener relays can be seen
+			hdr.udpDst = uint16(d.socks[(hdr.fwd-1)%nSameAddr].LocalAddr().(*net.UDPAddr).Port)
+			hdr.dstType, hdr.dstRaw = 0, []byte(d.srvIP.To4())
+		}
+		payload := d.payloadOf(s, firstReply, r)
+		ntsok := d.ntsField(labelOf(s), payload)
+		pkt, err := buildSCION(&hdr, payload)
+		if err != nil {
+			note("cannot build SCION packet: " + err.Error())
+			continue
 		}
 		reps, sreps := d.exchange(s.sender, dst, pkt, spkt, isSent)
-		if len(reps) > 0 {
-			if ok, _, pl := parseSCION(reps[0].data); ok {
+		if len(reps) > 0 && hdr.fwd == 0 { // (what comes back from a relayed packet is the request itself, not a reply)
+			if cls, _, pl := parseSCION(reps[0].data); cls == clsUDP {
 				firstReply[i] = pl
 			}
 		}
-		outs = append(outs, lib.L(lib.U(uint64(s.hdr.underlay)), lib.U(scionPort), lib.I(int64(s.sender)),
-			s.hdr.modelString(), lib.B(payload), lib.Bool(ntsok), reversed(s.hdr.pathType, s.hdr.pathRaw), scionObsList(reps),
+		outs = append(outs, lib.L(lib.U(uint64(hdr.underlay)), lib.U(scionPort), lib.I(int64(s.sender)),
+			hdr.modelString(), lib.B(payload), ntsok, reversed(hdr.pathType, hdr.pathRaw), scionObsList(reps),
 			sh.modelString(), lib.B(sentinel), reversed(sh.pathType, sh.pathRaw), scionObsList(sreps)))
 	}
 	emitCase(kind, tags, args, lib.V("0", lib.L(outs...)))
